@@ -135,6 +135,113 @@ def parse_script(script):
     return toks
 
 
+# ---------------------------------------------------------------- translator tie (shared with C12)
+AST_TRUSTED = ("translator tie: tools/srcfacts/minigo_codec.go (go/ast + go/types -> MiniGoBytes terms, "
+               "Got/Generated/AstIox.lean regenerated from /repo on every run) and the interpreter Got/Model/MiniGoBytes.lean "
+               "(Go `int` arithmetic without wrap-around: positions/lengths < 2^63); the interpreter run on the generated terms is "
+               "compared with the real code on every case of the correspondence (driver modes ast11 / ast12; `range32` and "
+               "`giant` lines of C11 are answered by the hand-written model in that mode)")
+
+
+def _ast_relevant(name):
+    """generated definition name (OctetsStream_ReadInt16) -> Go method name if it is one of the anchored methods"""
+    if "_" not in name:
+        return None
+    typ, meth = name.split("_", 1)
+    if typ in ("OctetsWriter", "OctetsReader"):
+        return typ + "." + meth
+    if typ == "OctetsStream" and (meth.startswith("Read") or meth.startswith("Write") or meth in ("Len", "Position")):
+        return typ + "." + meth
+    return None
+
+
+def _ast_limits():
+    import resource
+    lim = 6 << 30  # a variant without a bounds check can make the interpreter `make` 2^31 bytes
+    resource.setrlimit(resource.RLIMIT_AS, (lim, lim))
+
+
+def ast_tie(spec, ctx, mode):
+    """second correspondence (as C14's): (a) every anchored iox method must still be inside the MiniGoBytes fragment
+    (translation note "ok" in the regenerated Got/Generated/AstIox.lean); (b) the MiniGoBytes interpreter on the terms
+    regenerated from /repo's source (driver mode ast11 / ast12) must print what the real code printed, line by line."""
+    import re
+    import shutil
+    ex = ctx.get("ex")
+    cov = ctx["coverage"]
+    gen = os.path.join(C.LEAN, "Got", "Generated", "AstIox.lean")
+    notes = {}
+    if os.path.exists(gen):
+        for m in re.finditer(r'^def (\w+)Note : String := "(.*)"\s*$', open(gen, errors="replace").read(), re.M):
+            notes[m.group(1)] = m.group(2)
+    rel = {}
+    for name, note in notes.items():
+        go = _ast_relevant(name)
+        if go is not None:
+            rel[go] = note
+    cov["translated_methods"] = len(rel)
+    not_ok = sorted("%s: %s" % (g, n) for g, n in rel.items() if n != "ok")
+    cov["translation_notes_not_ok"] = not_ok
+    if not rel:
+        ctx["broken"].append({"layer": "L2", "what": "translator: no translated iox method found in Got/Generated/AstIox.lean"})
+    for g, n in sorted(rel.items()):
+        if n != "ok":
+            ctx["broken"].append({"layer": "L2", "what": "translator: %s is no longer inside the MiniGoBytes fragment (%s)" % (g, n)})
+    if not ex or "build_error" in ex or not ex.get("script") or not os.path.exists(C.driver_path(spec.driver)):
+        return
+    d = os.path.join(C.OUT, "run", "%s-ast-%d" % (spec.id, os.getpid()))
+    C.fresh_dir(d)
+    t0 = time.time()
+    try:
+        script = ex["script"]
+        # the driver is stateless per line: round-robin shards, run in parallel, re-interleaved afterwards
+        nshard = max(1, min(C.NCPU // 2, 4, len(script)))
+        procs = []
+        for k in range(nshard):
+            sp, op = os.path.join(d, "script%d.txt" % k), os.path.join(d, "ast%d.txt" % k)
+            with open(sp, "w") as fh:
+                fh.write("".join(x + "\n" for x in script[k::nshard]))
+            fin, fout = open(sp), open(op, "w")
+            procs.append((subprocess.Popen([C.driver_path(spec.driver), mode], stdin=fin, stdout=fout, stderr=subprocess.PIPE,
+                                           preexec_fn=_ast_limits), fin, fout, op))
+        rc, err = 0, ""
+        outs = []
+        deadline = t0 + 900
+        for p, fin, fout, op in procs:
+            try:
+                _, e = p.communicate(timeout=max(1, deadline - time.time()))
+            except subprocess.TimeoutExpired:
+                p.kill()
+                _, e = p.communicate()
+                e = (e or b"") + b" <timeout 900 s>"
+            fin.close()
+            fout.close()
+            if p.returncode != 0:
+                rc = p.returncode
+                err += (e or b"").decode(errors="replace")[-300:]
+            outs.append(open(op, errors="replace").read().split("\n")[:-1])
+        complete = all(len(o) == len(script[k::nshard]) for k, o in enumerate(outs))
+        out = [None] * len(script)
+        for k, o in enumerate(outs):
+            for j, line in enumerate(o):
+                if k + j * nshard < len(out):
+                    out[k + j * nshard] = line
+        nout = sum(len(o) for o in outs)
+        bad = [(i, s, a, b) for i, (s, a, b) in enumerate(zip(script, ex["impl"], out)) if b is not None and a != b]
+        cov["ast_interpreter_lines"] = nout
+        cov["ast_interpreter_mismatches"] = len(bad)
+        cov["ast_interpreter_wall_s"] = round(time.time() - t0, 1)
+        if rc != 0 or not complete:
+            ctx["broken"].append({"layer": "L2", "what": "driver (%s mode) failed rc=%s, %d of %d lines: %s" % (
+                mode, rc, nout, len(script), (err or "")[-300:]),
+                "first": [{"script": s[:200], "impl": a[:200], "ast": b[:200]} for _, s, a, b in bad[:5]]})
+        elif bad:
+            ctx["broken"].append({"layer": "L2", "what": "translated source (MiniGoBytes interpreter) and implementation differ on %d of %d lines" % (
+                len(bad), nout), "first": [{"script": s[:200], "impl": a[:200], "ast": b[:200]} for _, s, a, b in bad[:5]]})
+    finally:
+        shutil.rmtree(d, ignore_errors=True)
+
+
 class C11(Spec):
     id = "C11"
     anchors = ["iox.OctetsStream.Read*", "iox.OctetsStream.Write*", "iox.OctetsWriter.*", "iox.OctetsReader.*",
@@ -160,7 +267,8 @@ class C11(Spec):
             "CRC-32 streamed over the payload formula, by C11_wire_bytes / C11_roundtrip_bytes); random typed "
             "sequences. distinct by script line; non-trivial = at least one value whose encoding has more than one byte")
     trusted_base = ["convert.String/convert.Bytes modelled as identity on the byte sequence (unsafe cast, not verified)",
-                    "Go int (positions, lengths) modelled as unbounded naturals: streams shorter than 2^63 bytes"]
+                    "Go int (positions, lengths) modelled as unbounded naturals: streams shorter than 2^63 bytes",
+                    AST_TRUSTED]
     assumptions = ["independence of streams used by different goroutines is outside the sequential Lean model; it is searched for by "
                    "the conc phase (probabilistic: needs >= 2 CPUs) and judged by the oracle only (L3)",
                    "aliasing (decoded values / input buffers sharing memory with the stream) is outside the value-semantics Lean "
@@ -346,6 +454,7 @@ class C11(Spec):
         return bad, info
 
     def extra(self, ctx):
+        ast_tie(self, ctx, "ast11")
         ex = ctx.get("ex")
         if ex is None or "build_error" in ex:
             return
